@@ -50,17 +50,20 @@ func oc(err error) outcome {
 }
 
 type drv struct {
-	r     *Rng
-	rep   *Report
-	cases []string
-	fz    *fx // zstd storage
-	fu    *fx // uncompressed storage ("legacy" files; zstd reads go through GetLegacyZstdReadCloser)
-	base  map[string]int
-	up    *upstream
+	r         *Rng
+	rep       *Report
+	cases     []string
+	ft        *fx // tiny cache (256 KiB, zstd storage): refuses uploads that do not fit
+	fh        *fx // tiny cache with max_size_hard_limit (uncompressed storage): refuses uploads when "overloaded"
+	fp        *fx // zstd storage behind a stub proxy backend that supplies crafted file images
+	proxy     *stubProxy
+	fz        *fx // zstd storage
+	fu        *fx // uncompressed storage ("legacy" files; zstd reads go through GetLegacyZstdReadCloser)
+	base      map[string]int
+	up        *upstream
 	nameCases int
-	dirty     bool
+	kn        *known
 	slow      []string
-	reported  map[string]bool
 }
 
 var t0 = time.Now()
@@ -89,7 +92,8 @@ func (d *drv) addCase(coq, text string, nontrivial bool) {
 	}
 }
 
-func (d *drv) fxs() []*fx { return []*fx{d.fz, d.fu} }
+func (d *drv) fxs() []*fx   { return []*fx{d.fz, d.fu} }
+func (d *drv) allFx() []*fx { return []*fx{d.fz, d.fu, d.ft, d.fh, d.fp} }
 func (d *drv) pick() *fx {
 	if d.r.Chance(50) {
 		return d.fz
@@ -168,31 +172,13 @@ func (d *drv) rest(what string) { d.restOpt(what, true) }
 func (d *drv) restLight(what string) { d.restOpt(what, false) }
 
 func (d *drv) restOpt(what string, coq bool) {
-	wait := 6 * time.Second
-	if d.dirty { // something is left for good already: do not wait for it again and again
-		wait = 300 * time.Millisecond
-	}
-	q := quiesce(d.base, wait, d.fxs()...)
+	q := quiesce(d.base, d.kn, true, 8*time.Second, d.allFx()...)
 	for _, det := range q.detail {
-		d.dirty = true
-		if d.reported[det] {
-			continue
-		}
-		d.reported[det] = true
 		kind := det
 		if i := strings.IndexAny(kind, ":\n"); i > 0 {
 			kind = kind[:i]
 		}
 		d.fail("left behind after "+what+": "+kind, det)
-		// report once: what is leaked stays leaked
-		if strings.HasPrefix(det, "goroutine leak") || strings.HasPrefix(det, "handler still running") {
-			cnt, _ := brGoroutines()
-			for s, n := range cnt {
-				if n > d.base[s] {
-					d.base[s] = n
-				}
-			}
-		}
 	}
 	runtime.GC()
 	d.rep.Count("quiescence-checks")
@@ -327,9 +313,15 @@ func abuseDriver(seed uint64, n int, outV, outJSON string, args []string) {
 	log.SetOutput(io.Discard)
 	// no garbage collection between quiescence checks: a forgotten *os.File must not be closed by its
 	// finaliser before /proc/self/fd is read (the memory limit keeps the process bounded)
-	d := &drv{r: &Rng{S: seed}, rep: NewReport("abuse", seed), reported: map[string]bool{}}
+	d := &drv{r: &Rng{S: seed}, rep: NewReport("abuse", seed)}
 	d.rep.Rule = "hostile requests to every endpoint: ByteStream Read/Write/QueryWriteStatus (resource names of all shapes, offsets/limits incl. int64 extremes, message sequences with early aborts, half-close without messages, changed names, zstd garbage/truncated/trailing), CAS FindMissingBlobs/BatchUpdateBlobs/BatchReadBlobs/GetTree/SpliceBlob/SplitBlob (nil and malformed digests, nil elements in-process, stored ill-formed Directories, missing/overflowing/truncated chunks), ActionCache Get/Update (optional fields absent at every depth, nil elements in-process, stored garbage), Capabilities, Asset FetchBlob/FetchDirectory (hostile URIs and qualifiers against a local upstream), HTTP GET/HEAD/PUT and other methods (URL shapes, X-Digest-SizeBytes garbage, Content-Encoding variants, missing/wrong Content-Length, aborted bodies, failing response writers, JSON bodies), and byte-level mutation of the on-disk files of stored blobs read through every read path; both storage modes. Non-trivial = request answered without an error status; distinct = distinct request texts among the Coq cases"
 	d.fz, d.fu = newFx("zstd"), newFx("uncompressed")
+	d.ft, d.fh = newFxCfg("zstd", "tiny", tinyMax, 0), newFxCfg("uncompressed", "tinyhard", tinyMax, tinyHard)
+	defer d.ft.close()
+	defer d.fh.close()
+	d.proxy = &stubProxy{blobs: map[string][]byte{}, sizes: map[string]int64{}}
+	d.fp = newFxProxy("zstd", "proxied", 0, 0, d.proxy)
+	defer d.fp.close()
 	phase("fixtures")
 	d.up = newUpstream()
 	defer d.fz.close()
@@ -345,7 +337,8 @@ func abuseDriver(seed uint64, n int, outV, outJSON string, args []string) {
 	debug.SetMemoryLimit(2 << 30)
 	time.Sleep(50 * time.Millisecond)
 	d.base, _ = brGoroutines()
-	if q := quiesce(d.base, 6*time.Second, d.fxs()...); len(q.detail) > 0 {
+	d.kn = newKnown()
+	if q := quiesce(d.base, d.kn, true, 8*time.Second, d.allFx()...); len(q.detail) > 0 {
 		d.fail("the idle server is not at rest", strings.Join(q.detail, "\n"))
 	}
 
